@@ -58,7 +58,7 @@ OBSERVERS = [
 ]
 COPIERS = ["copy", "deepcopy", "pickle"]
 MUTATORS = ["set:o", "set:os", "append:r", "append:ri", "setitem:mp", "nested:m.v", "nested:m.c.a",
-            "mutate:r0", "mutate:mp", "set:t"]
+            "mutate:r0", "mutate:mp", "set:t", "parse-more", "parse-more-nested"]
 
 
 class ObsSpace(Space):
@@ -203,6 +203,13 @@ class ObsSpace(Space):
                 obj.mp[k].a = 99
         elif mut == "set:t":
             obj.t = av.TS_ALPHA[1]
+        elif mut == "parse-more":
+            # decoding further input INTO the copy (known and unknown fields) is a mutation of the copy
+            obj.parse(UNKNOWN_B + wire.make_rec(8, wire.VARINT, 3).raw + UNKNOWN_A)
+        elif mut == "parse-more-nested":
+            obj.m.parse(UNKNOWN_A)
+            for x in obj.r:
+                x.parse(UNKNOWN_B)
 
     def check(self, obj, model, history):
         """Edge invariant for the last operation of ``history`` (signatures of histories that start
